@@ -367,10 +367,10 @@ def replay_bookkeeping(inputs):
         bad.append(f'graph edges {sorted(edges)} != jump pairs {sorted(expect_edges)}')
     if set(G.nodes()) != set(range(n_sites)):
         bad.append('graph nodes are not the sites')
-    lat = tr.trajectory.get_lattice()
+    lat_matrix = np.array(tr.trajectory.lattice, dtype=float).reshape(3, 3)  # the raw cell the trajectory was built with (not the library's get_lattice())
     fc = tr.sites.frac_coords
     from verif.native.synth import brute_mindist
-    pd_ = brute_mindist(lat.matrix, fc, fc, rng=3)  # independent oracle: explicit image search in Cartesian space
+    pd_ = brute_mindist(lat_matrix, fc, fc, rng=3)  # independent oracle: explicit image search in Cartesian space
     for dim in (1, 2, 3):
         expect = sum(pd_[a, b] ** 2 for a, b in rows) * 1e-20 / (2 * dim * N * (T * tr.trajectory.time_step))
         got = float(jumps.jump_diffusivity(dim))
